@@ -15,12 +15,16 @@ import (
 )
 
 type viewSvc3 struct {
-	res  *svc.Doc
-	view string
+	res   *svc.Doc
+	view  string
+	board *svc.Board
+	pair  *svc.Pair
 }
 
 func (s *viewSvc3) Dyn(context.Context) (*svc.Doc, string, error) { return s.res, s.view, nil }
 func (s *viewSvc3) Fix(context.Context) (*svc.Doc, error)         { return s.res, nil }
+func (s *viewSvc3) Showboard(context.Context) (*svc.Board, error)  { return s.board, nil }
+func (s *viewSvc3) Showpair(context.Context) (*svc.Pair, error)    { return s.pair, nil }
 
 // VerifC08_w3_dyn: a view that leaves out the attribute a tagged response is
 // selected by, and that renders a nested result type without choosing a view
@@ -124,4 +128,84 @@ func VerifC08_w3_fix_client_validates() {
 		r, ok := out.(*svc.Doc)
 		verifAssert("w3fix:result", ok && r != nil && (!valid || (r.ID == *doc.ID && r.Code == *doc.Code && r.State == "open")))
 	}
+}
+
+// VerifC08_w3_nested_arrays: a result type below two array levels is rendered
+// with its default view (the hidden attribute never reaches the wire or the client).
+func VerifC08_w3_nested_arrays() {
+	secret := nondetStringUpTo("secret", 1)
+	cell := &svc.Cell{V: nondetInt("v"), Secret: &secret}
+	want := &svc.Board{Name: "b", Grid: [][]*svc.Cell{{cell}}}
+	eps := svc.NewEndpoints(&viewSvc3{board: want})
+	srv := server.New(eps, &stubMux{}, func(*http.Request) goahttp.Decoder { return stubDecoder{func(any) error { return nil }} }, recEncoder(), nil, nil)
+	w := newRecWriter()
+	srv.Showboard.ServeHTTP(w, newRequest("GET", nil))
+	verifAssert("nested-arrays:one-response", w.nHeaders == 1 && w.status == http.StatusOK && len(w.encoded) == 1)
+	if len(w.encoded) != 1 {
+		return
+	}
+	var doc struct {
+		Name *string `json:"name"`
+		Grid [][]*struct {
+			V      *int    `json:"v"`
+			Secret *string `json:"secret"`
+		} `json:"grid"`
+	}
+	verifAssert("nested-arrays:wire-document", verifJSONCopy(&doc, w.encoded[0]) == nil)
+	verifAssert("nested-arrays:shape", len(doc.Grid) == 1 && len(doc.Grid[0]) == 1 && doc.Grid[0][0] != nil)
+	if len(doc.Grid) == 1 && len(doc.Grid[0]) == 1 && doc.Grid[0][0] != nil {
+		verifAssert("nested-arrays:in-view-attribute", doc.Grid[0][0].V != nil && *doc.Grid[0][0].V == cell.V)
+		verifAssert("nested-arrays:out-of-view-attribute-absent", doc.Grid[0][0].Secret == nil)
+	}
+	verifAssert("openapi:response-conforms", verifSchemaAccepts(openapiDoc, "GET /board", map[string]any{"response:200": w.encoded[0]}))
+	resp := &http.Response{StatusCode: w.status, Header: w.h, Body: io.NopCloser(strings.NewReader(""))}
+	out, err := client.DecodeShowboardResponse(func(*http.Response) goahttp.Decoder {
+		return stubDecoder{func(v any) error { return verifJSONCopy(v, w.encoded[0]) }}
+	}, false)(resp)
+	verifAssert("nested-arrays:client-accepts", err == nil)
+	r, ok := out.(*svc.Board)
+	verifAssert("nested-arrays:client-result", ok && r != nil && len(r.Grid) == 1 && len(r.Grid[0]) == 1 && r.Grid[0][0] != nil && r.Grid[0][0].V == cell.V && r.Grid[0][0].Secret == nil)
+}
+
+// VerifC08_w3_lookalike_types: two result types with the same attributes but
+// different default views nested in one parent: each is rendered with its own view.
+func VerifC08_w3_lookalike_types() {
+	want := &svc.Pair{
+		Summary: &svc.Summary{ID: nondetInt("sid"), Title: nondetStringUpTo("stitle", 1)},
+		Detail:  &svc.Detail{ID: nondetInt("did"), Title: nondetStringUpTo("dtitle", 1)},
+	}
+	eps := svc.NewEndpoints(&viewSvc3{pair: want})
+	srv := server.New(eps, &stubMux{}, func(*http.Request) goahttp.Decoder { return stubDecoder{func(any) error { return nil }} }, recEncoder(), nil, nil)
+	w := newRecWriter()
+	srv.Showpair.ServeHTTP(w, newRequest("GET", nil))
+	verifAssert("lookalike:one-response", w.nHeaders == 1 && w.status == http.StatusOK && len(w.encoded) == 1)
+	if len(w.encoded) != 1 {
+		return
+	}
+	var doc struct {
+		Summary *struct {
+			ID    *int    `json:"id"`
+			Title *string `json:"title"`
+		} `json:"summary"`
+		Detail *struct {
+			ID    *int    `json:"id"`
+			Title *string `json:"title"`
+		} `json:"detail"`
+	}
+	verifAssert("lookalike:wire-document", verifJSONCopy(&doc, w.encoded[0]) == nil && doc.Summary != nil && doc.Detail != nil)
+	if doc.Summary == nil || doc.Detail == nil {
+		return
+	}
+	verifAssert("lookalike:narrow-view-for-the-first", doc.Summary.ID != nil && *doc.Summary.ID == want.Summary.ID && doc.Summary.Title == nil)
+	verifAssert("lookalike:wide-view-for-the-second", doc.Detail.ID != nil && *doc.Detail.ID == want.Detail.ID && doc.Detail.Title != nil && *doc.Detail.Title == want.Detail.Title)
+	// known: nested result types are documented with all their attributes; Summary's
+	// only view omits the required attribute title
+	verifAssert("openapi:response-conforms[nested-view-omits-required-attribute]", verifSchemaAccepts(openapiDoc, "GET /pair", map[string]any{"response:200": w.encoded[0]}))
+	resp := &http.Response{StatusCode: w.status, Header: w.h, Body: io.NopCloser(strings.NewReader(""))}
+	out, err := client.DecodeShowpairResponse(func(*http.Response) goahttp.Decoder {
+		return stubDecoder{func(v any) error { return verifJSONCopy(v, w.encoded[0]) }}
+	}, false)(resp)
+	verifAssert("lookalike:client-accepts", err == nil)
+	r, ok := out.(*svc.Pair)
+	verifAssert("lookalike:client-result", ok && r != nil && r.Summary != nil && r.Detail != nil && r.Summary.ID == want.Summary.ID && r.Detail.ID == want.Detail.ID && r.Detail.Title == want.Detail.Title)
 }
